@@ -164,6 +164,14 @@ func (p parser) transform(n *yaml.Node) (Node, error) {
 		}
 		contents[i] = subContent
 	}
+	if t == TypeIDMap {
+		// Map keys are looked up and serialized as strings, so only scalar keys are supported.
+		for i := 0; i < len(contents); i += 2 {
+			if contents[i].Type() != TypeIDString {
+				return nil, fmt.Errorf("unsupported non-scalar map key of type %s", contents[i].Type())
+			}
+		}
+	}
 
 	return &node{
 		t,
